@@ -763,13 +763,181 @@ Theorem C13_tree_totals : forall t t', tree_stats t = Ok t' ->
     jget "lines changed" st = Some (JInt (zsum (map (fun c => zsum (map (file_fig "lines changed") (c_files c))) (d_changes t')))).
 Proof.
   intros t t' H. destruct (C13_tree_sums _ _ H) as (F2 & st & S & C & _ & F & I & D & L).
-  exists st. repeat split; auto.
-  all: match goal with |- _ = Some (JInt (zsum (map ?g _))) =>
-         match goal with E : jget ?k st = Some (JInt (zsum (map ?h _))) |- jget ?k st = _ =>
-           rewrite E; do 3 f_equal;
-           assert (X : forall c', In c' (d_changes t') -> h c' = g c')
-         end end.
-  all: try (intros c' IN; destruct (proj1 (Forall2_forall_r_in F2) c' IN) as (c & _ & CS);
-            destruct (change_stats_figs _ _ CS) as (? & ? & ? & ?); auto).
-  all: apply map_ext_in; auto.
+  assert (X : forall c', In c' (d_changes t') -> exists c, change_stats c = Ok c').
+  { intros c' IN. clear -F2 IN. induction F2; [destruct IN|]. destruct IN as [<-|IN]; eauto. }
+  exists st. rewrite F, I, D, L. repeat split; auto; do 3 f_equal; apply map_ext_in; intros c' IN;
+    destruct (X c' IN) as [c CS]; destruct (change_stats_figs _ _ CS) as (? & ? & ? & ?); auto.
+Qed.
+
+(* ---- C13_preserve ---- *)
+(* erasure of every 'stats' entry: what must not change *)
+Definition strip_meta (m : msec) : msec := {| m_opts := m_opts m; m_content := assoc_del teq stats_key (m_content m) |}.
+Definition strip_file (f : dfile) : dfile := {| f_opts := f_opts f; f_meta := strip_meta (f_meta f); f_diff := f_diff f |}.
+Definition strip_change (c : dchange) : dchange :=
+  {| c_opts := c_opts c; c_pre := c_pre c; c_meta := strip_meta (c_meta c); c_files := map strip_file (c_files c) |}.
+Definition strip_stats (t : dtree) : dtree :=
+  {| d_opts := d_opts t; d_pre := d_pre t; d_meta := strip_meta (d_meta t); d_changes := map strip_change (d_changes t) |}.
+
+Lemma map_res_map : forall {A C} (f : A -> res A) (s : A -> C) l l',
+  (forall a a', f a = Ok a' -> s a' = s a) -> map_res f l = Ok l' -> map s l' = map s l.
+Proof.
+  induction l as [|x l IH]; cbn; intros l' F H.
+  - injection H as <-. reflexivity.
+  - inv_bind H. inv_bind H. injection H as <-. cbn. f_equal; auto.
+Qed.
+
+Lemma file_stats_strip : forall f f', file_stats f = Ok f' -> strip_file f' = strip_file f.
+Proof.
+  intros f f' H. rewrite file_stats_eq in H. destruct (fs_analyse (f_diff f)) as [|dels ins|e]; try discriminate.
+  - injection H as <-. reflexivity.
+  - inv_bind H. injection H as <-.
+    destruct (merge_stats_spec _ _ _ (NoDup_file_keys dels ins) E) as (_ & D & _).
+    unfold strip_file, strip_meta, with_file_meta. cbn [f_opts f_meta f_diff m_opts m_content]. rewrite D. reflexivity.
+Qed.
+Lemma change_stats_strip : forall c c', change_stats c = Ok c' -> strip_change c' = strip_change c.
+Proof.
+  intros c c' H. rewrite change_stats_eq in H.
+  inv_bind H. rename x into fs. inv_bind H. destruct x as [[i d] l]. inv_bind H. injection H as <-.
+  destruct (merge_stats_spec _ _ _ (NoDup_change_keys (length fs) i d l) E1) as (_ & D & _).
+  unfold strip_change, strip_meta, with_change. cbn [c_opts c_pre c_meta c_files m_opts m_content]. rewrite D.
+  rewrite (map_res_map file_stats strip_file _ _ file_stats_strip E). reflexivity.
+Qed.
+Theorem C13_preserve : forall t t', tree_stats t = Ok t' ->
+  strip_stats t' = strip_stats t /\
+  length (d_changes t') = length (d_changes t) /\
+  Forall2 (fun c c' => length (c_files c') = length (c_files c)) (d_changes t) (d_changes t').
+Proof.
+  intros t t' H. pose proof H as H0. rewrite tree_stats_eq in H.
+  inv_bind H. rename x into cs. inv_bind H. destruct x as [[[f i] d] l]. inv_bind H. injection H as <-.
+  destruct (merge_stats_spec _ _ _ (NoDup_tree_keys (length cs) f i d l) E1) as (_ & D & _).
+  split; [|split].
+  - unfold strip_stats, strip_meta, with_tree_meta. cbn [d_opts d_pre d_meta d_changes m_opts m_content]. rewrite D.
+    rewrite (map_res_map change_stats strip_change _ _ change_stats_strip E). reflexivity.
+  - cbn. eapply map_res_length; eauto.
+  - cbn. apply map_res_Forall2 in E. clear -E. induction E; constructor; auto.
+    destruct (C13_change_sums _ _ H) as (_ & st & _ & _ & L & _). exact L.
+Qed.
+
+(* what the erasure keeps: options, contents and every metadata key other than 'stats' *)
+Lemma strip_meta_keeps : forall m m', strip_meta m' = strip_meta m ->
+  m_opts m' = m_opts m /\ forall k, k <> stats_key -> assoc_get teq k (m_content m') = assoc_get teq k (m_content m).
+Proof.
+  intros m m' H. unfold strip_meta in H. injection H as H1 H2. split; auto.
+  intros k N. rewrite <- (aget_del_other teq teq_eq stats_key k (m_content m')), <- (aget_del_other teq teq_eq stats_key k (m_content m)); auto.
+  rewrite H2. reflexivity.
+Qed.
+Theorem C13_preserve_meaning : forall t t', strip_stats t' = strip_stats t ->
+  d_opts t' = d_opts t /\ d_pre t' = d_pre t /\
+  (m_opts (d_meta t') = m_opts (d_meta t) /\
+   forall k, k <> stats_key -> assoc_get teq k (m_content (d_meta t')) = assoc_get teq k (m_content (d_meta t))) /\
+  Forall2 (fun c c' =>
+     c_opts c' = c_opts c /\ c_pre c' = c_pre c /\
+     (m_opts (c_meta c') = m_opts (c_meta c) /\
+      forall k, k <> stats_key -> assoc_get teq k (m_content (c_meta c')) = assoc_get teq k (m_content (c_meta c))) /\
+     Forall2 (fun f f' =>
+        f_opts f' = f_opts f /\ f_diff f' = f_diff f /\
+        (m_opts (f_meta f') = m_opts (f_meta f) /\
+         forall k, k <> stats_key -> assoc_get teq k (m_content (f_meta f')) = assoc_get teq k (m_content (f_meta f))))
+       (c_files c) (c_files c'))
+    (d_changes t) (d_changes t').
+Proof.
+  intros t t' H.
+  pose proof (f_equal d_opts H) as H1. pose proof (f_equal d_pre H) as H2.
+  pose proof (f_equal d_meta H) as H3. pose proof (f_equal d_changes H) as H4.
+  cbn [strip_stats d_opts d_pre d_meta d_changes] in H1, H2, H3, H4.
+  split; [exact H1|]. split; [exact H2|]. split; [apply strip_meta_keeps; exact H3|].
+  revert H4. generalize (d_changes t) (d_changes t'). clear. intros l l0; revert l0.
+  induction l as [|c l IH]; intros [|c' l'] HL; try discriminate; constructor.
+  - cbn in HL. injection HL as Hc _.
+    pose proof (f_equal c_opts Hc) as C1. pose proof (f_equal c_pre Hc) as C2.
+    pose proof (f_equal c_meta Hc) as C3. pose proof (f_equal c_files Hc) as C4.
+    cbn [strip_change c_opts c_pre c_meta c_files] in C1, C2, C3, C4.
+    split; [exact C1|]. split; [exact C2|]. split; [apply strip_meta_keeps; exact C3|].
+    revert C4. generalize (c_files c) (c_files c'). clear. intros l0 l1; revert l1.
+    induction l0 as [|f l0 IHf]; intros [|f' l0'] Hf; try discriminate; constructor.
+    + cbn in Hf. injection Hf as Hf _.
+      pose proof (f_equal f_opts Hf) as F1. pose proof (f_equal f_meta Hf) as F2. pose proof (f_equal f_diff Hf) as F3.
+      cbn [strip_file f_opts f_meta f_diff] in F1, F2, F3.
+      split; [exact F1|]. split; [exact F3|]. apply strip_meta_keeps; exact F2.
+    + apply IHf. cbn in Hf. injection Hf; auto.
+  - apply IH. cbn in HL. injection HL; auto.
+Qed.
+
+(* inside the statistics objects, every key other than the computed ones is kept, at each of the three levels *)
+Lemma merge_stats_keeps : forall m st m' k, NoDup (map fst st) -> merge_stats m st = Ok m' -> ~ In k (map fst st) ->
+  assoc_get teq k (old_stats m') = assoc_get teq k (old_stats m).
+Proof. intros m st m' k ND H N. rewrite (merge_stats_old _ _ _ ND H). apply jupdate_get_notin; auto. Qed.
+Lemma merge_stats_keeps_keys : forall m st m' k, NoDup (map fst st) -> merge_stats m st = Ok m' ->
+  In k (map fst (old_stats m)) -> In k (map fst (old_stats m')).
+Proof. intros m st m' k ND H I. rewrite (merge_stats_old _ _ _ ND H). apply jupdate_keys_incl; auto. Qed.
+
+Definition file_keys : list text := [skey "deletions"; skey "insertions"; skey "lines changed"].
+Definition change_keys : list text := [skey "deletions"; skey "files"; skey "insertions"; skey "lines changed"].
+Definition tree_keys : list text := [skey "changes"; skey "deletions"; skey "files"; skey "insertions"; skey "lines changed"].
+
+Theorem C13_preserve_custom :
+  (forall f f' k, file_stats f = Ok f' -> ~ In k file_keys ->
+     assoc_get teq k (old_stats (m_content (f_meta f'))) = assoc_get teq k (old_stats (m_content (f_meta f)))) /\
+  (forall c c' k, change_stats c = Ok c' -> ~ In k change_keys ->
+     assoc_get teq k (old_stats (m_content (c_meta c'))) = assoc_get teq k (old_stats (m_content (c_meta c)))) /\
+  (forall t t' k, tree_stats t = Ok t' -> ~ In k tree_keys ->
+     assoc_get teq k (old_stats (m_content (d_meta t'))) = assoc_get teq k (old_stats (m_content (d_meta t)))).
+Proof.
+  repeat split.
+  - intros f f' k H N. rewrite file_stats_eq in H. destruct (fs_analyse (f_diff f)) as [|dels ins|e]; try discriminate.
+    + injection H as <-. reflexivity.
+    + inv_bind H. injection H as <-. cbn. eapply merge_stats_keeps; eauto. apply NoDup_file_keys.
+  - intros c c' k H N. rewrite change_stats_eq in H.
+    inv_bind H. inv_bind H. destruct x0 as [[i d] l]. inv_bind H. injection H as <-. cbn.
+    eapply merge_stats_keeps; eauto. apply NoDup_change_keys.
+  - intros t t' k H N. rewrite tree_stats_eq in H.
+    inv_bind H. inv_bind H. destruct x0 as [[[f i] d] l]. inv_bind H. injection H as <-. cbn.
+    eapply merge_stats_keeps; eauto. apply NoDup_tree_keys.
+Qed.
+
+(* ---- C13_idem ---- *)
+Lemma file_stats_diff : forall f f', file_stats f = Ok f' -> f_diff f' = f_diff f.
+Proof. intros f f' H. apply file_stats_strip in H. unfold strip_file in H. injection H; auto. Qed.
+Lemma file_stats_idem : forall f f', file_stats f = Ok f' -> file_stats f' = Ok f'.
+Proof.
+  intros f f' H. pose proof (file_stats_diff _ _ H) as D.
+  rewrite file_stats_eq, D. rewrite file_stats_eq in H.
+  destruct (fs_analyse (f_diff f)) as [|dels ins|e]; try discriminate; auto.
+  inv_bind H. injection H as <-. cbn [with_file_meta f_meta m_content].
+  rewrite (merge_stats_idem _ _ _ (NoDup_file_keys dels ins) E). reflexivity.
+Qed.
+Lemma change_stats_idem : forall c c', change_stats c = Ok c' -> change_stats c' = Ok c'.
+Proof.
+  intros c c' H. rewrite change_stats_eq in H.
+  inv_bind H. rename x into fs. inv_bind H. destruct x as [[i d] l]. inv_bind H. injection H as <-.
+  rewrite change_stats_eq. cbn [with_change c_files c_meta m_content].
+  rewrite (map_res_fixed file_stats fs).
+  - cbn [bind]. rewrite E0. cbn [bind].
+    rewrite (merge_stats_idem _ _ _ (NoDup_change_keys (length fs) i d l) E1). reflexivity.
+  - apply map_res_Forall2 in E. clear -E. induction E; constructor; auto. eapply file_stats_idem; eauto.
+Qed.
+Theorem C13_idem : forall t t1 t2, tree_stats t = Ok t1 -> tree_stats t1 = Ok t2 -> t2 = t1.
+Proof.
+  intros t t1 t2 H H2. assert (X : tree_stats t1 = Ok t1); [|congruence]. clear H2.
+  rewrite tree_stats_eq in H.
+  inv_bind H. rename x into cs. inv_bind H. destruct x as [[[f i] d] l]. inv_bind H. injection H as <-.
+  rewrite tree_stats_eq. cbn [with_tree_meta d_changes d_meta m_content].
+  rewrite (map_res_fixed change_stats cs).
+  - cbn [bind]. rewrite E0. cbn [bind].
+    rewrite (merge_stats_idem _ _ _ (NoDup_tree_keys (length cs) f i d l) E1). reflexivity.
+  - apply map_res_Forall2 in E. clear -E. induction E; constructor; auto. eapply change_stats_idem; eauto.
+Qed.
+(* generating on an already generated tree never fails *)
+Corollary C13_idem_total : forall t t1, tree_stats t = Ok t1 -> tree_stats t1 = Ok t1.
+Proof.
+  intros t t1 H. destruct (tree_stats t1) as [t2|e] eqn:E.
+  - f_equal. eapply C13_idem; eauto.
+  - exfalso. revert E.
+    rewrite tree_stats_eq in H.
+    inv_bind H. rename x into cs. inv_bind H. destruct x as [[[f i] d] l]. inv_bind H. injection H as <-.
+    rewrite tree_stats_eq. cbn [with_tree_meta d_changes d_meta m_content].
+    rewrite (map_res_fixed change_stats cs).
+    + cbn [bind]. rewrite E1. cbn [bind].
+      rewrite (merge_stats_idem _ _ _ (NoDup_tree_keys (length cs) f i d l) E2). discriminate.
+    + apply map_res_Forall2 in E0. clear -E0. induction E0; constructor; auto. eapply change_stats_idem; eauto.
 Qed.
